@@ -64,6 +64,7 @@ class FnSpec:
     body_only: bool = False
     no_smoke: bool = False
     returns_clause: str = None
+    impl_pre: list = field(default_factory=list)   # text emitted inside the generated `impl Owner {` block, before the fn (spec twins)
 
 
 def parse_vspec(path):
@@ -101,6 +102,8 @@ def parse_vspec(path):
             cur.ret = line[4:].strip(); continue
         if line == "recv mut":
             cur.recv_mut = True; continue
+        if line.startswith("impl-pre "):
+            cur.impl_pre.append(line[9:]); continue
         if line == "no-smoke":
             cur.no_smoke = True; continue
         if line.startswith("implicit "):
@@ -327,8 +330,15 @@ class Unit:
     def rewrite_common(self, text, fnkey, spec=None):
         text = X._strip_comments(text)
         text, n = X.r1_async(text); self._log("R1-async", fnkey, n)
-        text, n = X.r2_log(text); self._log("R2-log", fnkey, n)
-        text, n = X.r3_errctx(text); self._log("R3-errctx", fnkey, n)
+        if self.cfg.get("unit", {}).get("log_sink", False):
+            # `[unit] log_sink = true`: log events, error contexts and `write!`/`format!` are not dropped; every value their text is
+            # built from is handed to a stub of vx/prelude/logsink.rs (what reaches the log is an obligation at the call site)
+            text, n = X.r2_log_sink(text); self._log("R2-log-sink", fnkey, n)
+            text, n = X.r3_errctx_sink(text); self._log("R3-errctx-sink", fnkey, n)
+            text, n = X.r10_fmt_sink(text); self._log("R10-fmt-sink", fnkey, n)
+        else:
+            text, n = X.r2_log(text); self._log("R2-log", fnkey, n)
+            text, n = X.r3_errctx(text); self._log("R3-errctx", fnkey, n)
         for rw in self.cfg.get("rewrite", []):
             # unit-declared instances of the parameterised rules (R5 lock, R6 atomics, R8 closure schema,
             # R9 diverge, R10 fmt): regex -> replacement, each application logged under its rule id.
@@ -556,7 +566,12 @@ class Unit:
         start_line = len(g.lines) + 1
         if owner:
             g.emit(f"impl {owner} {{", kind="gen")
+        if not smoke:
+            for tl in sp.impl_pre:
+                g.emit(tl, kind="gen")
         for a in sp.attrs:
+            if smoke and "when_used_as_spec" in a:
+                continue      # the smoke twin is never called, and its spec twin (impl-pre) belongs to the original only
             g.emit(a, kind="gen")
         # head lines map to source
         g.emit_src(head, relfile, first_line, fnkey)
